@@ -213,6 +213,7 @@ def upd : P String := do
   let Sp ← block sosaOn "sparse" S O
   let G ← block sosaOn "generic" S O
   let UE ← block sosaOn "usereigen" S O
+  let US ← block sosaOn "usersparse" S O
   P.bar; P.lit "pob"
   let pob ← qsN O
   P.eof
@@ -230,6 +231,7 @@ def upd : P String := do
   let v := checkBlock raw sosaOn conv exact m b Sp v
   let v := checkBlock raw sosaOn conv exact m b G v
   let v := checkBlock raw sosaOn conv exact m b UE v
+  let v := checkBlock raw sosaOn conv exact m b US v
   -- the library's own P(o | b, a): `SparseModel::getObservationProbability(b, o, a)` on the sparse model of the line
   let ms := storedModelR raw "sparse" m
   let cP := "SparseModel::getObservationProbability(b,o,a)/sparse"
@@ -240,6 +242,7 @@ def upd : P String := do
   let v := fIf v (!(allLt O fun o => decide (0 ≤ pob.getD o 0))) (fun _ => s!"{cP} negative_probability impl={pob}")
   let v := crossCheck exact S O D G v
   let v := crossCheck exact S O D UE v
+  let v := crossCheck exact S O D US v
   let v := if dropped then crossSparseDropped exact S O D Sp v else crossCheck exact S O D Sp v
   return v.render
 
@@ -413,8 +416,19 @@ def accept : P String := do
     let v := fIf v (acc && spM && !(allRows m (fun n row => decide (rowDev n row ≤ tolSmall) && allLt n (fun i => decide (-tolSmall ≤ row i)))))
         (fun _ => s!"{comp} accepted_invalid_model (row sum beyond the tolerance or entry below -tolerance)")
     return v.render
+  if cls == "sparseC" then
+    -- SparseModel(const M&) from a dense Model that was itself accepted
+    let comp := "SparseModel/converting_ctor"
+    let ill := !(allRows (sparsify tolSmall m) (fun n row => !nearTol (rowDev n row)))
+    if ill then return "skip ill_conditioned"
+    let model := acceptSparseConv tolSmall m
+    let v : Verdict := { tag := "accept_" ++ cls ++ (if acc then "_yes" else "_no") }
+    let v := dIf v (model != acc) (fun _ => s!"{comp} model={model} impl={acc}")
+    let v := fIf v (acc && !(allRows (sparsify tolSmall m) (fun n row => allLt n (fun i => decide (0 ≤ row i)) && decide (rowDev n row ≤ tolSmall))))
+        (fun _ => s!"{comp} accepted_invalid_model (stored rows beyond the tolerance once sub-threshold entries are dropped)")
+    return v.render
   let sp := cls == "sparse"
-  let comp := (if sp then "SparseModel" else "Model") ++ "/ctor"
+  let comp := (if sp then "SparseModel" else "Model") ++ (if cls == "denseC" then "/converting_ctor" else "/ctor")
   -- decided by rounding? (a row sum, or for the sparse class a stored row sum, within 1e-9 of the tolerance)
   let ill := !(allRows m (fun n row => !nearTol (rowDev n row))) ||
              (sp && !(allRows (sparsify tolSmall m) (fun n row => !nearTol (rowDev n row))))
